@@ -89,14 +89,16 @@ def write_sed_raw(path, name, wav, aps, val, unc, order, legacy_units=True, flux
 
 
 def build_perfile(d, names, wav, aps, val, unc, stored=None, fnames=None, writer='lib', aperture_dependent=None,
-                  logd_step=0.02, pad=True, par_values=None, ap_unit='au'):
+                  logd_step=0.02, pad=True, par_values=None, ap_unit='au', wav_of=None):
     """per-file package: models.conf, seds/<fname>_sed.fits, parameters.fits (rows in `names` order)"""
     os.makedirs(os.path.join(d, 'seds'))
     apdep = (aps is not None) if aperture_dependent is None else aperture_dependent
     fw.write_conf(d, aperture_dependent=apdep, logd_step=logd_step)
+    wav0 = wav
     for m, nm in enumerate(names):
         order = (stored[m] if stored else 'desc')
         stem = fnames[m] if fnames else nm
+        wav = wav_of(m) if wav_of else wav0          # every SED file may come on its own wavelength grid
         p = os.path.join(d, 'seds', stem + '_sed.fits')
         if writer == 'lib':
             sed_object(nm, wav, aps, lambda a, w: val(m, a, w), lambda a, w: unc(m, a, w), order, ap_unit=ap_unit).write(p)
